@@ -82,6 +82,8 @@ impl Rec {
 struct RecSink {
     recs: Arc<Mutex<Vec<Rec>>>,
     clock: Arc<AtomicU64>,
+    /// T-trace: the shared history (observations in the order they were made)
+    hist: Option<Arc<Mutex<Vec<String>>>>,
 }
 
 impl RecSink {
@@ -110,6 +112,9 @@ impl EntrySink<RootMetric<Uow>> for RecSink {
             seq,
             extra_keys: (t.metrics.len() + t.values.len()).saturating_sub(known),
         };
+        if let Some(h) = &self.hist {
+            h.lock().unwrap().push(format!("app:{}", rec.show()));
+        }
         self.recs.lock().unwrap().push(rec);
     }
     fn flush_async(&self) -> metrique::writer::sink::FlushWait {
@@ -380,7 +385,10 @@ struct World {
 }
 
 fn new_world(init: [u64; 2]) -> World {
-    let sink = RecSink::default();
+    new_world_with(init, RecSink::default())
+}
+
+fn new_world_with(init: [u64; 2], sink: RecSink) -> World {
     let owner = Uow {
         plain: 0,
         hits: Counter::new(0),
@@ -733,8 +741,12 @@ fn enumerate(f: &Family, depth: usize, visit: &mut dyn FnMut(&[Op])) {
 }
 
 fn random_case(rng: &mut Rng, slots: bool) -> Case {
+    random_case_opts(rng, slots, true, 28)
+}
+
+fn random_case_opts(rng: &mut Rng, slots: bool, tail: bool, max_len: u64) -> Case {
     let init = [rng.below(50), rng.below(50)];
-    let len = rng.range(3, 28) as usize;
+    let len = rng.range(3, max_len) as usize;
     let mut g = GenState::new();
     let mut ops = vec![];
     let nslots_used = if slots { rng.range(1, 4) as usize } else { 0 };
@@ -778,7 +790,7 @@ fn random_case(rng: &mut Rng, slots: bool) -> Case {
         ops.push(pick);
     }
     // cleanup tail: drop everything that is left, in a random order (then exactly one entry must exist)
-    if rng.chance(2, 3) {
+    if tail && rng.chance(2, 3) {
         let mut tail = vec![];
         if g.sh.fut {
             ops.push(Op::Wc);
@@ -892,6 +904,418 @@ fn process(cases: &[Case], args: &Args, slots_checked: bool) -> ShardOut {
     so
 }
 
+// ------------------------------------------------------------------------------------------------
+// Stage 2: T-trace
+
+static PERTURB: AtomicU64 = AtomicU64::new(0);
+static POINT_HITS: [AtomicU64; 4] = [AtomicU64::new(0), AtomicU64::new(0), AtomicU64::new(0), AtomicU64::new(0)];
+
+fn jitter() {
+    // splitmix step on a shared state: every decision derives from the case's perturbation seed
+    let x = PERTURB.fetch_add(0x9E37_79B9_7F4A_7C15, Ordering::Relaxed);
+    let mut z = x;
+    z = (z ^ (z >> 30)).wrapping_mul(0xBF58_476D_1CE4_E5B9);
+    z = (z ^ (z >> 27)).wrapping_mul(0x94D0_49BB_1331_11EB);
+    z ^= z >> 31;
+    match z % 6 {
+        0 | 1 => {}
+        2 | 3 => std::thread::yield_now(),
+        4 => {
+            let t = std::time::Instant::now();
+            while t.elapsed() < std::time::Duration::from_micros(5 + z % 40) {
+                std::hint::spin_loop();
+            }
+        }
+        _ => std::thread::sleep(std::time::Duration::from_micros(20 + z % 120)),
+    }
+}
+
+fn install_perturbation() {
+    metrique_writer_core::verif::set_callback(Some(Box::new(|id| {
+        if (10..=13).contains(&id) {
+            POINT_HITS[(id - 10) as usize].fetch_add(1, Ordering::Relaxed);
+            jitter();
+        }
+    })));
+}
+
+enum Racer {
+    Ref(Box<dyn Send>),
+    Fg(FlushGuard),
+    Dg(Pin<Box<ForceFlushGuard>>),
+    Sg(usize, SlotGuard<Child>, Option<u64>),
+}
+
+struct TraceOut {
+    setup: Vec<Op>,
+    hist: Vec<String>,
+    racers: usize,
+    panicked: Option<String>,
+}
+
+/// Runs the setup on this thread, then drops everything that is left on one thread each.
+fn run_trace(c: &Case, pseed: u64) -> TraceOut {
+    PERTURB.store(pseed, Ordering::Relaxed);
+    let hist = Arc::new(Mutex::new(Vec::<String>::new()));
+    let sink = RecSink { hist: Some(hist.clone()), ..Default::default() };
+    let mut w = new_world_with(c.init, sink);
+    let mut sh = Shadow::new();
+    let mut setup = vec![];
+    let log = |s: String| hist.lock().unwrap().push(s);
+    for op in &c.ops {
+        if !sh.valid(op) {
+            continue;
+        }
+        // observations before the operation
+        match *op {
+            Op::Dref => log("bR".into()),
+            Op::Dfg => log("bF".into()),
+            Op::Ddg => log("bD".into()),
+            Op::Gd(i) => log(format!("bG:{i}")),
+            Op::Gm(i, v) => log(format!("gm:{i}:{v}")),
+            Op::Mut(v) => log(format!("mut:{v}")),
+            Op::Hit(v) => log(format!("hit:{v}")),
+            _ => {}
+        }
+        let r = catch(|| w.exec(op));
+        let (_, open_ok, ready) = match r {
+            Ok(x) => x,
+            Err(p) => return TraceOut { setup, hist: hist.lock().unwrap().clone(), racers: 0, panicked: Some(format!("{}: {p}", op.enc())) },
+        };
+        sh.apply(op, open_ok, ready);
+        setup.push(*op);
+        match *op {
+            Op::Fg => log("nF".into()),
+            Op::Dg => log("nD".into()),
+            Op::Cl => log("nR".into()),
+            Op::Dref => log("eR".into()),
+            Op::Dfg => log("eF".into()),
+            Op::Ddg => log("eD".into()),
+            Op::Gd(i) => log(format!("eG:{i}")),
+            Op::Open(i, wmode, v0) => {
+                let m = if wmode { "w" } else { "d" };
+                if open_ok {
+                    let v = if i < 2 { c.init[i] } else { v0 };
+                    log(format!("opn:{i}:{m}:{v}"))
+                } else {
+                    log(format!("opnFail:{m}"))
+                }
+            }
+            Op::Delay(i) => log(format!("delay:{i}")),
+            _ => {}
+        }
+    }
+    // a pending future borrows the owner: cancel it (the client would have to, before moving the owner)
+    w.fut.take();
+    let mut racers: Vec<Racer> = vec![];
+    if let Some(o) = w.owner.take() {
+        racers.push(Racer::Ref(Box::new(o)));
+    }
+    for h in w.handles.drain(..) {
+        racers.push(Racer::Ref(Box::new(h)));
+    }
+    for f in w.fgs.drain(..) {
+        racers.push(Racer::Fg(f));
+    }
+    for d in w.dgs.drain(..) {
+        racers.push(Racer::Dg(d));
+    }
+    let mut prng = Rng::new(pseed);
+    for i in 0..NSLOTS {
+        if let Some(g) = w.guards[i].take() {
+            let m = if prng.chance(1, 2) { Some(prng.below(100)) } else { None };
+            racers.push(Racer::Sg(i, g, m));
+        }
+    }
+    let n = racers.len();
+    let barrier = Arc::new(std::sync::Barrier::new(n.max(1)));
+    let panics = Arc::new(Mutex::new(Vec::<String>::new()));
+    std::thread::scope(|sc| {
+        for r in racers {
+            let barrier = barrier.clone();
+            let hist = hist.clone();
+            let panics = panics.clone();
+            sc.spawn(move || {
+                let log = |s: String| hist.lock().unwrap().push(s);
+                barrier.wait();
+                jitter();
+                let res = catch(move || match r {
+                    Racer::Ref(x) => {
+                        log("bR".into());
+                        drop(x);
+                        log("eR".into());
+                    }
+                    Racer::Fg(x) => {
+                        log("bF".into());
+                        drop(x);
+                        log("eF".into());
+                    }
+                    Racer::Dg(x) => {
+                        log("bD".into());
+                        drop(x);
+                        log("eD".into());
+                    }
+                    Racer::Sg(i, mut g, m) => {
+                        if let Some(v) = m {
+                            log(format!("gm:{i}:{v}"));
+                            g.val = v;
+                            jitter();
+                        }
+                        log(format!("bG:{i}"));
+                        drop(g);
+                        log(format!("eG:{i}"));
+                    }
+                });
+                if let Err(p) = res {
+                    panics.lock().unwrap().push(p);
+                }
+            });
+        }
+    });
+    let panicked = panics.lock().unwrap().first().cloned();
+    let h = hist.lock().unwrap().clone();
+    TraceOut { setup, hist: h, racers: n, panicked }
+}
+
+/// The property oracle on an observed history (Rust, from the statements of C06 / C13).
+fn trace_oracle(hist: &[String], check_slots: bool) -> Option<(String, String)> {
+    #[derive(Default, Clone)]
+    struct Sl {
+        opened: bool,
+        wait: bool,
+        gval: u64,
+        gone: bool,
+        sure: bool,
+    }
+    let (mut refs_out, mut fg_out, mut dg_begun, mut dg_ended, mut inflight) = (1i64, 0i64, 0i64, 0i64, 0i64);
+    let (mut plain, mut hits, mut apps) = (0u64, 0u64, 0u64);
+    let mut sl: Vec<Sl> = vec![Sl::default(); NSLOTS];
+    for (k, ev) in hist.iter().enumerate() {
+        let f: Vec<&str> = ev.split(':').collect();
+        let num = |i: usize| -> u64 { f[i].parse().unwrap() };
+        let allowed = refs_out == 0 && (fg_out == 0 || dg_begun > 0);
+        match f[0] {
+            "nR" => refs_out += 1,
+            "bR" => {
+                refs_out -= 1;
+                inflight += 1
+            }
+            "nF" => fg_out += 1,
+            "bF" => {
+                fg_out -= 1;
+                inflight += 1
+            }
+            "nD" => {}
+            "bD" => {
+                dg_begun += 1;
+                inflight += 1
+            }
+            "eR" | "eF" => inflight -= 1,
+            "eD" => {
+                inflight -= 1;
+                dg_ended += 1
+            }
+            "mut" => plain = num(1),
+            "hit" => hits = num(1),
+            "opn" => {
+                let i = num(1) as usize;
+                sl[i].opened = true;
+                sl[i].wait = f[2] == "w";
+                sl[i].gval = num(3);
+            }
+            "opnFail" => {
+                if f[1] == "w" {
+                    fg_out -= 1
+                }
+            }
+            "delay" => {
+                let i = num(1) as usize;
+                if sl[i].wait {
+                    fg_out -= 1
+                }
+                sl[i].wait = true;
+            }
+            "gm" => sl[num(1) as usize].gval = num(2),
+            "bG" => {
+                let i = num(1) as usize;
+                sl[i].gone = true;
+                inflight += 1;
+                if sl[i].wait {
+                    fg_out -= 1
+                }
+            }
+            "eG" => {
+                let i = num(1) as usize;
+                inflight -= 1;
+                // the guard was dropped completely while the entry could not possibly have been closed
+                sl[i].sure = !allowed;
+            }
+            "app" => {
+                apps += 1;
+                if apps > 1 {
+                    return Some(("trace:twice".into(), format!("observation {k}: the entry was appended a second time")));
+                }
+                if !allowed {
+                    return Some((
+                        "trace:early".into(),
+                        format!("observation {k}: appended while {refs_out} owning reference(s) / {fg_out} flush guard(s) had not begun to drop and no force-flush guard had"),
+                    ));
+                }
+                if num(1) != plain || num(2) != hits {
+                    return Some(("trace:content".into(), format!("observation {k}: appended {ev}, last written plain={plain} hits={hits}")));
+                }
+                if check_slots {
+                    for (i, v) in f[3].split(',').enumerate() {
+                        let got: Option<u64> = v.parse().ok();
+                        let s = &sl[i];
+                        let bad = if !s.opened || !s.gone {
+                            got.is_some()
+                        } else if (s.wait && dg_begun == 0) || s.sure {
+                            got != Some(s.gval)
+                        } else {
+                            got.is_some() && got != Some(s.gval)
+                        };
+                        if bad {
+                            return Some((
+                                "trace:slot".into(),
+                                format!("observation {k}: slot {i} appended as {v}; opened={} wait={} guard-dropped={} before-close-for-sure={} last value {}", s.opened, s.wait, s.gone, s.sure, s.gval),
+                            ));
+                        }
+                    }
+                }
+            }
+            _ => return Some(("trace:harness".into(), format!("unknown observation {ev}"))),
+        }
+        if inflight == 0 && refs_out == 0 && (fg_out == 0 || dg_ended > 0) && apps == 0 {
+            return Some((
+                "trace:late".into(),
+                format!("observation {k} ({ev}): nothing is in flight, the owner, all handles and (all flush guards or a force-flush guard) are dropped, and the sink has nothing"),
+            ));
+        }
+    }
+    None
+}
+
+fn trace_case_line(c: &Case, pseed: u64) -> String {
+    format!("trace {pseed} {}", c.encode())
+}
+
+fn decode_trace_line(s: &str) -> Option<(Case, u64)> {
+    let rest = s.strip_prefix("trace ")?;
+    let (p, c) = rest.split_once(' ')?;
+    Some((Case::decode(c)?, p.parse().ok()?))
+}
+
+fn trace_stage(rep: &mut Report, args: &Args, rng: &mut Rng, c13: bool, replay: Option<(Case, u64)>) {
+    install_perturbation();
+    let mut todo: Vec<(Case, u64)> = vec![];
+    if let Some((c, p)) = replay {
+        for k in 0..300 {
+            todo.push((c.clone(), p.wrapping_add(k)));
+        }
+    } else {
+        for l in args.corpus_cases() {
+            if let Some((c, p)) = decode_trace_line(&l) {
+                for k in 0..20 {
+                    todo.push((c.clone(), p.wrapping_add(k)));
+                }
+            }
+        }
+        let n = if args.thorough() { 40_000 } else { 1_500 };
+        for i in 0..n {
+            let mut c = random_setup(rng, c13 || i % 3 == 0);
+            if i % 5 == 0 {
+                // the classic three-way race: owner, one wait-mode slot guard, one force-flush guard (+ a late flush guard)
+                c = Case { init: c.init, ops: vec![Op::Fg, Op::Open(0, true, 0), Op::Dg, Op::Fg, Op::Mut(rng.below(50))] };
+            }
+            todo.push((c, rng.next_u64()));
+        }
+    }
+    let mut requests = vec![];
+    let mut verdicts: Vec<(String, Option<(String, String)>)> = vec![];
+    for (c, p) in &todo {
+        let t = run_trace(c, *p);
+        let line = trace_case_line(&Case { init: c.init, ops: t.setup.clone() }, *p);
+        rep.case(&line, t.racers >= 2);
+        rep.bump(&format!("trace:racers:{}", t.racers.min(9)));
+        let pos = |pat: &str| t.hist.iter().position(|e| e.starts_with(pat));
+        if let Some(a) = pos("app") {
+            // which drop was in progress when the sink was called (the last `b*` without its `e*` is not unique; report the kind of the last begin)
+            let last_begin = t.hist[..a].iter().rev().find(|e| e.starts_with('b')).map(|e| e[..2].to_string()).unwrap_or("-".into());
+            rep.bump(&format!("trace:append-after-begin-of:{last_begin}"));
+        } else {
+            rep.bump("trace:no-append (guards left? no: everything is dropped; owner absent)");
+        }
+        let mut v = trace_oracle(&t.hist, true);
+        if let Some(p) = &t.panicked {
+            v = Some(("trace:panic".into(), format!("a drop panicked: {p}")));
+        }
+        if verdicts.len() % 499 == 0 {
+            rep.sample(json!({"case": line, "history": t.hist.join(" ")}));
+        }
+        requests.push(format!("trace {NSLOTS} | {}", t.hist.join(" ")));
+        verdicts.push((line, v));
+    }
+    for (i, h) in POINT_HITS.iter().enumerate() {
+        rep.bump_by(&format!("trace:perturbation point {} hits", 10 + i), h.load(Ordering::Relaxed));
+    }
+    let replies = run_driver(&args.driver, "keepalive", &requests);
+    if replies.is_none() {
+        rep.driver_available = false;
+    }
+    for (k, (line, v)) in verdicts.iter().enumerate() {
+        let lean = replies.as_ref().map(|r| r[k].clone());
+        if let Some(l) = &lean {
+            rep.traces_validated += 1;
+            let rust_rejects = v.is_some();
+            if (l != "accept") != rust_rejects {
+                rep.disagreement(
+                    "keepalive/trace-spec",
+                    &format!("{line} ## history: {}", requests[k]),
+                    &match v {
+                        Some((k, w)) => format!("rust oracle rejects: {k}: {w}"),
+                        None => "rust oracle accepts".into(),
+                    },
+                    l,
+                );
+            }
+        }
+        if let Some((key, what)) = v {
+            rep.oracle_failure(key, line, &requests[k], what);
+        }
+    }
+}
+
+fn random_setup(rng: &mut Rng, slots: bool) -> Case {
+    let mut c = random_case_opts(rng, slots, false, 16);
+    // keep most objects for the race: usually no guard is dropped during the setup (but a force-flush guard
+    // dropped early gives the "late guards" situation, so those stay more often)
+    if rng.chance(3, 4) {
+        let keep_ddg = rng.chance(1, 2);
+        c.ops.retain(|o| !matches!(o, Op::Dfg | Op::Gd(_)) && (keep_ddg || !matches!(o, Op::Ddg)));
+    }
+    // keep the owner (or a handle) for the race in most cases
+    if rng.chance(7, 8) {
+        let mut refs = 1i64;
+        c.ops.retain(|o| match o {
+            Op::Cl => {
+                refs += 1;
+                true
+            }
+            Op::Dref => {
+                if refs > 1 {
+                    refs -= 1;
+                    true
+                } else {
+                    false
+                }
+            }
+            _ => true,
+        });
+    }
+    c
+}
+
 fn main() {
     quiet_panics();
     let args = Args::parse();
@@ -903,12 +1327,22 @@ fn main() {
     );
     let mut rng = Rng::new(args.seed);
     let mut cases: Vec<Case> = vec![];
+    let mut trace_replay = None;
+    let mut run_traces = true;
     if let Some(line) = args.replay_case() {
         // a correspondence replay may carry a suffix after ` ## `
         let line = line.split(" ## ").next().unwrap().to_string();
-        cases.extend(Case::decode(&line));
+        if line.starts_with("trace ") {
+            trace_replay = decode_trace_line(&line);
+        } else {
+            cases.extend(Case::decode(&line));
+            run_traces = false;
+        }
     } else {
         for l in args.corpus_cases() {
+            if l.starts_with("trace ") {
+                continue;
+            }
             match Case::decode(&l) {
                 Some(c) => cases.push(c),
                 None => rep.notes.push(format!("corpus line not understood: {l}")),
@@ -963,6 +1397,9 @@ fn main() {
         if !so.driver_ok {
             rep.driver_available = false;
         }
+    }
+    if run_traces {
+        trace_stage(&mut rep, &args, &mut rng, c13, trace_replay);
     }
     rep.write(&args);
 }
